@@ -2,10 +2,10 @@ package main
 
 import (
 	"fmt"
-	"os"
 	"go/constant"
 	"go/token"
 	"go/types"
+	"os"
 	"strings"
 
 	"golang.org/x/tools/go/ssa"
@@ -418,6 +418,27 @@ func c04(c *Ctx) {
 	for _, n := range p.namedTypesIn("arg") {
 		if ev := declaredMethod(p, n, "Eval"); ev != nil && ev.Blocks != nil {
 			checkPairwiseArity(p, r, "C04.R2", ev)
+		}
+	}
+
+	// ---- R3: the arguments of a condition reach the expression builder as the caller supplied them: the list handed to
+	// arg.ToExpr / arg.In in the root package is the constructor's own parameter, not a rebuilt or re-interpreted list
+	for _, f := range root {
+		for _, cs := range callsTo(f, qual("arg", "ToExpr"), qual("arg", "In")) {
+			a0 := callCommon(cs).Args[0]
+			okSupplied := true
+			for _, a := range origins(a0) {
+				switch a.Kind {
+				case "param", "field":
+				default:
+					okSupplied = false
+				}
+			}
+			if sl, isSl := resolveLocal(a0).(*ssa.Slice); isSl {
+				_ = sl
+			}
+			r.Check(okSupplied && len(origins(a0)) > 0, "C04.R3", "condition arguments handed on as supplied in "+shortName(f), p.Pos(posOf(cs)), "the list given to the expression builder is the caller's list",
+				"the condition's argument list is rebuilt before it is turned into expressions ("+atomsString(origins(a0))+"): a re-interpreted list (expanded, filtered, defaulted) makes conditions match calls they were not written for, or stop matching the calls they were written for")
 		}
 	}
 
